@@ -1859,7 +1859,7 @@ def set_peripheral_compartments(model: Model, n: int, name: str = None):
     except TypeError:
         raise TypeError(f'Number of compartments must be integer: {n}')
 
-    per = len(odes.find_peripheral_compartments())
+    per = len(odes.find_peripheral_compartments(name))
     if per < n:
         for _ in range(n - per):
             model = add_peripheral_compartment(model, name=name)
